@@ -877,6 +877,9 @@ func (wd *world) oracle(c Case) (out vkit.Outcome) {
 	if ran && c.Kind == "real" && id.Valid && id.Root {
 		wd.reached[c.Route] = true
 	}
+	if !ran && c.Kind == "real" && id.Valid && id.Root && c.Cred.Form == "token" {
+		debugf("admin token did not reach %s: status %d", c.Route, status)
+	}
 
 	// ---- bookkeeping
 	permKey := strings.Join(id.Perms, ",")
@@ -1165,7 +1168,7 @@ func TestC20(t *testing.T) {
 	vkit.Run(t, vkit.Spec[Case]{
 		ID:    "C20",
 		Level: "exploration",
-		Rule: "real: every route of the running server's table (all handlers replaced by probes) x credential form x roster user, enumerated once (shard 0) and sampled; " +
+		Rule: "real: every route of the running server's table (all handlers replaced by probes) x credential form x roster user, enumerated once (spread over the shards) and sampled; " +
 			"gen: fresh router, one route, 0-6 builder calls drawn with repetition in any order from Authentication/Permissions/LightWeight/Class/AcceptMedia/Parameter/CanAuthenticate/Credentials/AllowRedirects, " +
 			"plus an enumerated list of order-sensitive shapes. Credential forms: none, empty/malformed Authorization (13), Basic wrong/empty/unknown/deleted user, Basic correct (also upper-case name, lower-case scheme), " +
 			"token valid, expired (fresh/cached), tampered (any hex digit), extended, truncated, wrong scheme, revoked (fresh/cached), token of a deleted user, payload credentials. " +
@@ -1194,14 +1197,16 @@ func TestC20(t *testing.T) {
 		Quick:    6000,
 		Thorough: 120000,
 		Extra: func() map[string]any {
-			var unreached []string
+			// lists are united over the shards by the driver (the fixed cases
+			// are spread round-robin over the shards)
+			var reached []string
 			for _, k := range wd.keys {
-				if !wd.reached[k] {
-					unreached = append(unreached, k)
+				if wd.reached[k] {
+					reached = append(reached, k)
 				}
 			}
-			return map[string]any{"routes": len(wd.keys), "users": wd.names, "setup_notes": wd.notes,
-				"routes_probe_reached_by_admin": len(wd.reached), "routes_probe_not_reached_by_admin": unreached}
+			return map[string]any{"route_table": wd.keys, "routes_whose_probe_ran_for_an_administrator": reached,
+				"users": wd.names, "setup_notes": wd.notes}
 		},
 	})
 }
